@@ -172,9 +172,10 @@ def apply(project, label, mj):
         if ('null' in attrs and not attrs['null'] and f['type'] != 'M2M'
                 and initial is None):
             raise Disabled()
-        if ftype:
+        if ftype and ftype != f['type']:
             # a (database-level) type change replaces the attribute set,
-            # as Diff.evolution() hints it
+            # as Diff.evolution() hints it (restating the current type is
+            # no type change)
             f['type'] = ftype
             f['attrs'] = {}
         for k, v in attrs.items():
